@@ -20,8 +20,17 @@ ASSUMPTIONS = ['prover/proofrec.solve_cnf replays proofs[new_id] as: start from 
 
 
 def _nested(repo, name):
+    from ..inline import inlined
     f = repo.func(SAT, 'solve_cnf')
-    return need(f.nested.get(name), 'solve_cnf: nested function %s not found' % name)
+    g = need(f.nested.get(name), 'solve_cnf: nested function %s not found' % name)
+    if id(g.node) not in _read:
+        # helpers defined inside the function are part of it
+        main = ('unit_propagate', 'analyze_conflict', 'backtrack', 'print_debug', 'resolution')
+        _read[id(g.node)] = (g, inlined(g, lambda h: h.parent is not None and h.name not in main)[0])
+    return _read[id(g.node)][1]
+
+
+_read = {}
 
 
 def rule_x1(repo):
@@ -239,12 +248,15 @@ def rule_x5(repo):
             'connectives treated as logical: %s; expansion theorems: %s - a definition x = a <op> b without expansion stays in the result, which is then '
             'not a CNF' % (want, sorted(ths)), enc.loc)
     cl = repo.func(TSEITIN, 'convert_cnf')
-    lit = need(cl.nested.get('convert_literal'), 'convert_cnf: convert_literal not found')
-    rets = [n for n in ast.walk(lit.node) if isinstance(n, ast.Return) and isinstance(n.value, ast.Tuple) and len(n.value.elts) == 2]
+    # the literals of the result: pairs (<atom>.name, <sign>) built anywhere in convert_cnf (returned by a local helper or appended in a loop)
+    lit = cl.nested.get('convert_literal') or cl
+    pairs = [n for n in ast.walk(cl.node) if isinstance(n, ast.Tuple) and len(n.elts) == 2 and isinstance(n.elts[0], ast.Attribute) and n.elts[0].attr == 'name']
+    need(pairs, 'convert_cnf: no literal (<atom>.name, <sign>) is built')
     signs = {}
-    for r in rets:
-        neg = 'arg' in src(r.value.elts[0])
-        signs[neg] = r.value.elts[1].value if isinstance(r.value.elts[1], ast.Constant) else None
+    for r in pairs:
+        neg = 'arg' in src(r.elts[0])
+        v = r.elts[1].value if isinstance(r.elts[1], ast.Constant) else None
+        signs[neg] = v if signs.get(neg, v) == v else None
     ok = signs.get(True) is False and signs.get(False) is True
     res.add('%s :: convert_cnf.convert_literal :: sign' % TSEITIN, ok,
             'a negated atom becomes (name, False), an atom (name, True)' if ok else 'the sign of a converted literal does not follow its negation', lit.loc)
